@@ -17,4 +17,28 @@ def core (o : Outcome LexCore) : LexCore :=
   | .ok s => s
   | .err _ s => s
 
+/-- `case LexerBuiltinOperator` before repo fix C12-05: `-.` was not the possible start of a
+number; the `-` became a symbol and the dot started the next atom. -/
+def stepBuiltin (s0 : LexCore) (r : Char) : Outcome LexCore :=
+  let s := { s0 with state := .normal }
+  let atom := [s.prevrune, r]
+  if s.prevrune == '-' && canStartSignedNumberAfter s.preBuiltinRune && (floatRe atom || decimalRe atom) then
+    .ok { s with buffer := s.buffer ++ atom }
+  else if builtinOpRe atom then
+    let a := if atom == "&&".toList then "and".toList else if atom == "||".toList then "or".toList else atom
+    .ok (appendToken s ⟨.symbol, a⟩)
+  else stepNormal (appendToken s ⟨.symbol, [s.prevrune]⟩) r
+
+/-- `LexNextRune` before C12-05: only the `LexerBuiltinOperator` arm differs (the arm reached
+through `LexerFirstFwdSlash` has `prevrune = '/'`, where old and new agree; the state
+`LexerMinusDot` did not exist). -/
+def step (s : LexCore) (r : Char) : Outcome LexCore :=
+  let s1 := { s with priorRune := s.priorRune.set s.priori r, priori := (s.priori + 1) % 20 }
+  if s1.state == .builtinOperator then stepBuiltin s1 r else stepMode s1 r
+
+def feed (o : Outcome LexCore) (rs : List Char) : Outcome LexCore :=
+  rs.foldl (fun o r => match o with
+    | .ok s => step s r
+    | .err e s => .err e s) o
+
 end ZygoVerif.Legacy.Lexer
